@@ -6,7 +6,7 @@ import json, os, re, shutil, subprocess, sys
 from concurrent.futures import ThreadPoolExecutor
 HERE = os.path.dirname(os.path.dirname(os.path.abspath(__file__)))
 E, k, summary = sys.argv[1:4]
-wt = "/tmp/seed4/%s" % E
+wt = "%s/%s" % (os.environ.get("EQ_ROOT", "/tmp/seed4"), E)
 diff = os.path.join(wt, "e%s.diff" % k)
 def sh(cmd, **kw):
     return subprocess.run(cmd, shell=True, capture_output=True, text=True, **kw)
@@ -25,17 +25,18 @@ try:
         results = list(ex.map(run, ids))
 finally:
     sh("git -C %s checkout -- pypika_tortoise" % wt)
+    sh("git -C %s clean -fdq pypika_tortoise" % wt)
     sh("git -C %s checkout -- evidence" % HERE)
     sh("find %s/replays -name 'viol-*.json' -delete" % HERE)
 bad = [r for r in results if r["exit"] != 0]
 print("tests:", t, "| alarms:", ",".join(r["check"] for r in bad) or "none")
 for r in bad:
     print("  ", r["check"], "exit", r["exit"], r["signatures"][:4], r["details"][:1], r["stderr"])
-dst = os.path.join(HERE, "seeded", "EQ-%s-e%s" % (E, k))
+dst = os.path.join(HERE, "seeded", "%s-%s-e%s" % (os.environ.get("EQ_TAG", "EQ"), E, k))
 os.makedirs(dst, exist_ok=True)
 shutil.copy(diff, os.path.join(dst, "patch.diff"))
 base = sh("git -C %s rev-parse --short HEAD" % wt).stdout.strip()
-meta = {"property": "none (behaviour-preserving refactoring)", "summary": summary, "needs": "-", "base_commit": base, "round": 4,
+meta = {"property": "none (behaviour-preserving refactoring)", "summary": summary, "needs": "-", "base_commit": base, "round": int(os.environ.get("EQ_ROUND", "4")),
         "verified": {"repo_tests_with_change": t, "how": "git apply in a scratch worktree of /repo HEAD; pytest; VERIF_REPO_DIR=<worktree> ./check <ID> quick for all 18 checks; expected: no alarm"},
         "checks": [{"check": r["check"], "tier": "quick", "result": "exit %d; ALARM %s" % (r["exit"], ", ".join(r["signatures"][:3]))} for r in bad] or [{"check": "all 18", "tier": "quick", "result": "exit 0; no alarm"}]}
 json.dump(meta, open(os.path.join(dst, "meta.json"), "w"), indent=1)
